@@ -4,7 +4,7 @@
 (*   "ser"      serialize every object of the bounded domains in both entry modes       (C02 C15)  *)
 (*   "rt"       ... then deserialize the bytes unchanged; RoundTrip on the model              (C01)  *)
 (*   "hostile"  ... then deserialize every single-fault corruption of the bytes          (C03 C15)  *)
-(*   "bytes"    deserialize every short byte string over {0,1,2,254,255}                     (C03)  *)
+(*   "bytes"    deserialize every short byte string over {0,1,2,3,254,255}                     (C03)  *)
 (* FUELS / DFUELS: injected failure points of the writer / reader (-1 = none)               (C15)  *)
 (* Finished behaviours are printed (EMIT) for replay against the generated code.                   *)
 EXTENDS ProtoSer, ProtoDeser, ProtoInvalid, ProtoObject, Json, IOUtils
@@ -29,13 +29,13 @@ MCDoms == IF MODE = "mut" THEN TinyDoms ELSE IF RICH
         three |-> {L(0), L(64009), <<247, 6884>>}, int |-> {L(0), <<247, 6885>>, LSub(INT_MAX_L, <<0, 1>>)},
         strs |-> {<<>>, <<97>>, <<255, 126>>, <<256, 98>>}, alpha |-> {97, 255}, counts |-> 0..2,
         blobs |-> {<<>>, <<0>>, <<255, 1>>}, unrec |-> L(7), strict |-> FALSE]
-  ELSE [byte |-> {L(1), L(255)}, char |-> {L(1), L(252)}, short |-> {L(2), L(64008)}, three |-> {L(3), <<247, 6884>>},
-        int |-> {L(4), LSub(INT_MAX_L, <<0, 1>>)}, strs |-> {<<97>>, <<98, 99>>}, alpha |-> {97, 98}, counts |-> 1..2,
+  ELSE [byte |-> {L(1), L(255)}, char |-> {L(1), L(252)}, short |-> {L(2), L(64008)}, three |-> {L(3), L(64009), <<247, 6884>>},
+        int |-> {L(4), <<247, 6885>>, LSub(INT_MAX_L, <<0, 1>>)}, strs |-> {<<97>>, <<98, 99>>}, alpha |-> {97, 98}, counts |-> 1..2,
         blobs |-> {<<1>>, <<7, 1>>}, unrec |-> L(7), strict |-> TRUE]
 
 Idle == [r |-> [data |-> <<>>, pos |-> 0, chunked |-> FALSE, cs |-> 0, log |-> <<>>], dstack |-> <<>>, dstatus |-> "idle", dexc |-> "", dfuel |-> -1, dresult |-> NoneV]
 SetDeser(s) == r' = s.r /\ dstack' = s.dstack /\ dstatus' = s.dstatus /\ dexc' = s.dexc /\ dfuel' = s.dfuel /\ dresult' = s.dresult
-ByteStrings(n) == UNION {[1..k -> {0, 1, 2, 254, 255}] : k \in 0..n}
+ByteStrings(n) == UNION {[1..k -> {0, 1, 2, 3, 254, 255}] : k \in 0..n}      \* (3 = EO char 2: the second declared case / enum member)
 
 Init ==
   /\ inv = [what |-> "", stray |-> FALSE]
